@@ -72,7 +72,9 @@ _RESTR_OLD = '''        idx = set(term.idx)
                                    " because the index with alpha spin is "
                                    f"already used in the term: {term}.")
             sub[old] = new
-        restricted_expr += term.sympy.subs(order_substitutions(sub))
+        # replace all indices at once: replacing them one after another may
+        # create an intermediate delta_{i_alpha j_beta}, which vanishes
+        restricted_expr += term.sympy.xreplace(sub)
 '''
 
 WITNESSES = [
@@ -208,6 +210,14 @@ WITNESSES = [
     dict(id="c15-repeated-index-last-spin-wins", prop="C15", file=S, expect="R15h",
          old='                    if idx in idx_map and idx_map[idx] != spin:\n                        break\n                    idx_map[idx] = spin\n                else:\n                    object_idx_maps.append(idx_map)',
          new='                    idx_map[idx] = spin\n                object_idx_maps.append(idx_map)'),
+    # fix 2b66ec3: the beta indices of a term are renamed all at once (a delta between two beta indices must survive)
+    dict(id="c15-restricted-sequential-revert", prop="C15", file=S, expect="R15e",
+         old="        restricted_expr += term.sympy.xreplace(sub)", new="        restricted_expr += term.sympy.subs(order_substitutions(sub))"),
+    dict(id="c15-restricted-subs-dict", prop="C15", file=S, expect="R15e",
+         old="        restricted_expr += term.sympy.xreplace(sub)", new="        restricted_expr += term.sympy.subs(sub)"),
+    dict(id="c15-restricted-subs-loop", prop="C15", file=S, expect="R15e",
+         old="        restricted_expr += term.sympy.xreplace(sub)",
+         new="        renamed = term.sympy\n        for old, new in sub.items():\n            renamed = renamed.subs(old, new)\n        restricted_expr += renamed"),
     # ------------------------------------------------------------------ behaviour preserving
     dict(id="c15-ok-copy-comprehension", prop="C15", file=S, expect=None, old=_COPY,
          new="                        complete_variant = {\"a\": set(idx_map[\"a\"]), \"b\": set(idx_map[\"b\"])}"),
@@ -287,7 +297,7 @@ WITNESSES = [
         if clashes:
             raise RuntimeError("It is not safe to replace the beta indices "
                                f"{clashes} in the term: {term}.")
-        restricted_expr += (term.sympy.subs(order_substitutions(renaming))
+        restricted_expr += (term.sympy.xreplace(renaming)
                             if renaming else term.sympy)
 '''),
     # spin map built with dict(zip) after the consistency check; while loop over the terms
@@ -352,4 +362,21 @@ def allowed_spin_blocks(expr: Expr, target_idx: str) -> tuple[str]:''')]),
     dict(id="c15-ok-itmd-blocks-inline", prop="C15", file="intermediates.py", expect=None,
          old="        target_idx = self.default_idx\n        itmd = self.expand_itmd(indices=target_idx, fully_expand=False)\n        return allowed_spin_blocks(itmd.expand(), target_idx)",
          new="        definition = self.expand_itmd(self.default_idx, fully_expand=False)\n        return allowed_spin_blocks(target_idx=self.default_idx,\n                                   expr=definition.expand())"),
+    # equivalent spellings of a simultaneous replacement
+    dict(id="c15-ok-restricted-subs-simultaneous", prop="C15", file=S, expect=None,
+         old="        restricted_expr += term.sympy.xreplace(sub)", new="        restricted_expr += term.sympy.subs(sub, simultaneous=True)"),
+    dict(id="c15-ok-restricted-subs-pairs-simultaneous", prop="C15", file=S, expect=None,
+         old="        restricted_expr += term.sympy.xreplace(sub)",
+         new="        restricted_expr += term.sympy.subs(list(sub.items()),\n                                           simultaneous=True)"),
+    dict(id="c15-ok-restricted-xreplace-keyword", prop="C15", file=S, expect=None,
+         old="        restricted_expr += term.sympy.xreplace(sub)", new="        renaming = dict(zip(beta_idx, new_idx))\n        restricted_expr += term.sympy.xreplace(rule=renaming)"),
+    # integrate_spin: spin-less -> spin renaming never passes through a delta of two spins, at once or one after another
+    dict(id="c15-ok-integrate-xreplace", prop="C15", file=S, expect=None,
+         old="                contribution += term.sympy.subs(order_substitutions(sub))", new="                contribution += term.sympy.xreplace(sub)"),
+    dict(id="c15-ok-integrate-subs-simultaneous", prop="C15", file=S, expect=None,
+         old="                contribution += term.sympy.subs(order_substitutions(sub))",
+         new="                contribution += term.sympy.subs(sub, simultaneous=True)"),
+    dict(id="c15-ok-integrate-subs-pairs", prop="C15", file=S, expect=None,
+         old="                contribution += term.sympy.subs(order_substitutions(sub))",
+         new="                contribution += term.sympy.subs(sorted(sub.items(), key=lambda p: p[0].name))"),
 ]
